@@ -33,22 +33,27 @@ pub(crate) fn post_set(old: Place, new: &Place, k: u8, m: Option<u8>) -> bool {
 
 pub(crate) fn any_place() -> Place { Place(kani::any()) }
 
+//% props=C18,C08 tier=thorough kind=P form=contract twin=k1_set_all_plain covers=set_lab.* pair=Place::set_labial
 #[kani::proof_for_contract(Place::set_labial)]
 #[kani::unwind(5)]
 fn k1_set_labial() { let mut p = any_place(); let m: Option<u8> = kani::any(); p.set_labial(m); }
 
+//% props=C18,C08 tier=thorough kind=P form=contract twin=k1_set_all_plain covers=set_cor.* pair=Place::set_coronal
 #[kani::proof_for_contract(Place::set_coronal)]
 #[kani::unwind(5)]
 fn k1_set_coronal() { let mut p = any_place(); let m: Option<u8> = kani::any(); p.set_coronal(m); }
 
+//% props=C18,C08 tier=thorough kind=P form=contract twin=k1_set_all_plain covers=set_dor.* pair=Place::set_dorsal
 #[kani::proof_for_contract(Place::set_dorsal)]
 #[kani::unwind(5)]
 fn k1_set_dorsal() { let mut p = any_place(); let m: Option<u8> = kani::any(); p.set_dorsal(m); }
 
+//% props=C18,C08 tier=thorough kind=P form=contract twin=k1_set_all_plain covers=set_phr.* pair=Place::set_pharyngeal
 #[kani::proof_for_contract(Place::set_pharyngeal)]
 #[kani::unwind(5)]
 fn k1_set_pharyngeal() { let mut p = any_place(); let m: Option<u8> = kani::any(); p.set_pharyngeal(m); }
 
+//% props=C18 tier=quick kind=P covers=get_lab,get_cor,get_dor,get_phr,*_is_some,*_is_none,is_some,is_none pair=Place::get_labial,Place::get_coronal,Place::get_dorsal,Place::get_pharyngeal,Place::is_some,Place::is_none,Place::labial_is_some,Place::coronal_is_some,Place::dorsal_is_some,Place::pharyngeal_is_some,Place::labial_is_none,Place::coronal_is_none,Place::dorsal_is_none,Place::pharyngeal_is_none
 /// all read accessors against the view, for every one of the 2^16+1 place values (loop-free: complete)
 #[kani::proof]
 #[kani::unwind(5)]
@@ -66,6 +71,7 @@ fn k1_getters() {
     assert!(p.pharyngeal_is_some() == v_phr(&p).is_some() && p.pharyngeal_is_none() == v_phr(&p).is_none());
 }
 
+//% props=C18,C08 tier=quick kind=P covers=law_empty_place_is_absent,law_view_injective,law_none_wf
 /// C18 laws over the views: an empty well-formed place is absent; views determine a wf place
 #[kani::proof]
 #[kani::unwind(5)]
@@ -79,4 +85,24 @@ fn k1_laws() {
         assert!(p.0 == q.0);
     }
     kani::cover!(wf_place(&p) && p.0.is_some());
+}
+
+impl Place { pub(crate) fn raw_for_verif(&self) -> Option<u16> { self.0 } }
+
+/// the four setter contracts in plain (assume / call / assert) form: same predicates as the
+/// injected #[kani::requires]/#[kani::ensures]; loop-free apart from the fixed 4-trip loop => complete.
+/// Replayable natively.
+//% props=C18,C08 tier=quick kind=P covers=set_lab.*,set_cor.*,set_dor.*,set_phr.* pair=Place::set_labial,Place::set_coronal,Place::set_dorsal,Place::set_pharyngeal
+#[kani::proof]
+#[kani::unwind(5)]
+fn k1_set_all_plain() {
+    let old = any_place();
+    let m: Option<u8> = kani::any();
+    let k: u8 = kani::any();
+    kani::assume(k < 4);
+    kani::assume(if k == 2 { in6(m) } else { in2(m) });
+    let mut p = old;
+    match k { 0 => p.set_labial(m), 1 => p.set_coronal(m), 2 => p.set_dorsal(m), _ => p.set_pharyngeal(m) }
+    assert!(post_set(old, &p, k, m), "set_<sub-node>: get-after-set, frame, wf preserved, never Some(0)");
+    kani::cover!(wf_place(&old) && m.is_none() && p.0.is_none() && old.0.is_some());
 }
